@@ -1,78 +1,212 @@
-(* C20 - property theorems only.  [pipeline] and [worker_body] are REGENERATED from /repo
-   (Gen/GenStatus.v): run_multiome_tagging with tag_multiome_single_thread,
-   tag_multiome_multi_processing, sorted_bam_file (code before / after its yield), sort_and_index and
-   merge_bams inlined; which pipeline runs is the branch [ch id_ch_multiprocess].
-   Quantifiers: [cnt] = number of iterations of every loop (molecules, fragments, worker results,
-   temp files ...), [ch] = outcome of every run-time test, [f] = what happens to the i-th executed
-   step (works / raises before / raises half way, and with which exception class: RuntimeError,
-   ValueError, OSError, TimeoutError, MemoryError, another Exception, or a non-Exception such as
-   KeyboardInterrupt - the except clauses of the source decide per class), so every crash point and
-   every sequence of faults is covered; [crash_at e k] is the single fault of the statement. *)
+(* C20 - property theorems only.  [pipeline], [worker_full] are REGENERATED from /repo (Gen/GenStatus.v):
+   pipeline = run_multiome_tagging with tag_multiome_single_thread, tag_multiome_multi_processing, the
+   --cluster branch, sorted_bam_file (code before / after its yield), sort_and_index and merge_bams inlined;
+   every result of the worker pool is a [Spawn worker_full]: worker_full = the whole body of
+   run_tagging_tasks (temp BAM naming, task loop with its TimeoutError handler, sort + index, removal of an
+   empty temp BAM, both returns) with run_tagging_task inlined, run on a world of its own.
+   Quantifiers: [cnt] = number of iterations of every loop at each of its entries (jobs, tasks per job,
+   molecules per task, fragments, temp files ...), [ch] = outcome of every run-time test at each evaluation,
+   [f] = what happens to the i-th executed step, in the parent or in a worker (works / raises before /
+   raises half way, and with which exception class: RuntimeError, ValueError, OSError, TimeoutError,
+   MemoryError, another Exception, or a non-Exception such as KeyboardInterrupt - the except clauses of the
+   source decide per class), so every crash point and every sequence of faults is covered; [crash_at e k] is
+   the single fault of the statement.  [aux_clear w0]: the ghost / data fields of the initial world are in
+   their initial state (nothing lost, nothing reported, counters zero, no path in hand).
+   TimeoutError: run_tagging_tasks swallows it on purpose (-max_time_per_segment: the task is put in
+   timeout_tasks, the parent blacklists the region in the output header).  The full-strength statement
+   ("success => every record") is therefore proved for every class except TimeoutError, REFUTED with it
+   (C20_every_record_refuted), and the exact guarantee that remains is proved for all classes
+   (..._timeouts: nothing is dropped without a report). *)
 From Coq Require Import List Bool Arith.
 Import ListNotations.
 From SCMO Require Import Lib.StatusLang Gen.GenStatus Model.C20 Proofs.C20 Proofs.C20_inst.
 
 (* whenever the status file reports success, the output BAM exists, is complete, sorted, indexed:
-   at the end of every run, however and wherever it was interrupted, in both pipelines *)
+   at the end of every run, however and wherever it was interrupted (parent or worker side), in both pipelines *)
 Theorem C20_never_ok_early : forall cnt ch f w0 r s,
-  invb w0 = true -> lost w0 = false ->
+  no_timeout f ->
+  aux_clear w0 = true -> invb w0 = true ->
   run_prog pipeline cnt ch f w0 = (r, s) ->
   st (wd s) = SOk -> ex (wd s) = true /\ co (wd s) = true /\ so (wd s) = true /\ ix (wd s) = true.
 Proof. exact never_ok_early. Qed.
 Print Assumptions C20_never_ok_early.
 
-(* the same in the words of the statement: n molecules, crash point k *)
+(* the same in the words of the statement: crash point k, exception class e *)
 Theorem C20_never_ok_early_crash_at : forall cnt ch e k w0 r s,
-  invb w0 = true -> lost w0 = false ->
+  e <> KTimeout ->
+  aux_clear w0 = true -> invb w0 = true ->
   run_prog pipeline cnt ch (crash_at e k) w0 = (r, s) ->
   st (wd s) = SOk -> ex (wd s) = true /\ co (wd s) = true /\ so (wd s) = true /\ ix (wd s) = true.
 Proof. exact never_ok_early_crash_at. Qed.
 Print Assumptions C20_never_ok_early_crash_at.
 
+(* every class, TimeoutError included: success => the output exists, is sorted and indexed, NOTHING was
+   dropped without a report (no failed worker, no half-merged job, no forgotten temp BAM), and it is complete
+   unless a segment was given up and reported in timeout_tasks *)
+Theorem C20_never_ok_early_timeouts : forall cnt ch f w0 r s,
+  aux_clear w0 = true -> invb w0 = true ->
+  run_prog pipeline cnt ch f w0 = (r, s) ->
+  st (wd s) = SOk ->
+  ex (wd s) = true /\ so (wd s) = true /\ ix (wd s) = true /\ lost (wd s) = false /\ (co (wd s) = true \/ rep (wd s) = true).
+Proof. exact never_ok_early_timeouts. Qed.
+Print Assumptions C20_never_ok_early_timeouts.
+
+(* the full-strength statement with TimeoutError admitted is refuted by the faithful model (by design of
+   -max_time_per_segment): a standard multiprocess run over 3 jobs x 3 tasks x 3 molecules in which one step
+   of a worker raises TimeoutError returns, says success, and lacks records (reported, not lost) *)
+Theorem C20_every_record_refuted : exists k s,
+  run_prog pipeline cnt3 (ch_of ch_true_multi) (crash_at KTimeout k) w_fresh = (RNormal, s) /\
+  st (wd s) = SOk /\ co (wd s) = false /\ rep (wd s) = true /\ lost (wd s) = false.
+Proof. exact every_record_refuted. Qed.
+Print Assumptions C20_every_record_refuted.
+
 (* a run that returns (possibly after swallowed failures such as a sort retry or a failed temp folder
    removal) ends with status Ok and a complete, sorted, indexed output *)
 Theorem C20_ok_at_end : forall cnt ch f w0 s,
-  lost w0 = false ->
+  no_timeout f ->
+  aux_clear w0 = true ->
   run_prog pipeline cnt ch f w0 = (RNormal, s) ->
   st (wd s) = SOk /\ ex (wd s) = true /\ co (wd s) = true /\ so (wd s) = true /\ ix (wd s) = true.
 Proof. exact ok_at_end. Qed.
 Print Assumptions C20_ok_at_end.
 
-(* a run that fails never says success (it did not start with a stale success marker; no blacklist
-   temp files to clean after the pipeline) *)
+Theorem C20_ok_at_end_timeouts : forall cnt ch f w0 s,
+  aux_clear w0 = true ->
+  run_prog pipeline cnt ch f w0 = (RNormal, s) ->
+  st (wd s) = SOk /\ ex (wd s) = true /\ so (wd s) = true /\ ix (wd s) = true /\ lost (wd s) = false /\
+  (co (wd s) = true \/ rep (wd s) = true).
+Proof. exact ok_at_end_timeouts. Qed.
+Print Assumptions C20_ok_at_end_timeouts.
+
+(* a run that does not return never says success (it did not start with a stale success marker; no blacklist
+   temp files to clean after the pipeline) - whichever step failed, in the parent or in any worker of any job *)
 Theorem C20_fail_not_ok : forall cnt ch f w0 r s,
-  ch id_ch_tempfiles = false ->
-  st w0 <> SOk ->
+  (forall n, ch id_ch_tempfiles n = false) ->
+  aux_clear w0 = true -> st w0 <> SOk ->
   run_prog pipeline cnt ch f w0 = (r, s) ->
   r <> RNormal -> st (wd s) <> SOk.
 Proof. exact fail_not_ok. Qed.
 Print Assumptions C20_fail_not_ok.
 
-(* a worker of the multiprocess pipeline that returns has written a complete sorted indexed BAM,
-   whatever failed inside it with whatever exception class other than TimeoutError (swallowed on
-   purpose by -max_time_per_segment) *)
-Theorem C20_worker_complete : forall cnt ch f w0 s,
-  no_timeout f ->
-  lost w0 = false ->
-  run_prog worker_body cnt ch f w0 = (RNormal, s) ->
-  ex (wd s) = true /\ co (wd s) = true /\ so (wd s) = true /\ ix (wd s) = true.
-Proof. exact worker_complete. Qed.
-Print Assumptions C20_worker_complete.
+(* the parent never reports success when a worker failed, in three steps:
+   (a) a worker that raises (or returns nothing usable) makes next(job_generator) raise in the parent and
+       marks the parent's world [lost], for every worker program;
+   (b) the mark stays for the rest of every run of every program;
+   (c) a run of the pipeline that ends with the mark does not say success (also when something in the parent
+       swallowed the exception). *)
+Theorem C20_worker_failure_marks_parent : forall cnt ch f l p s k s',
+  exec cnt ch f (Spawn l p) s = (RRaised k, s') -> lost (wd s') = true.
+Proof. exact spawn_failure_lost. Qed.
+Print Assumptions C20_worker_failure_marks_parent.
 
-(* non-vacuity (and why TimeoutError is excluded for the worker): standard runs of both pipelines and of a worker over 3 iterations of every loop complete; some crash point
-   among the first 200 steps of the single-process run over a previous successful output raises and
-   does not leave the success marker *)
+Theorem C20_lost_is_sticky : forall cnt ch f p s r s',
+  exec cnt ch f p s = (r, s') -> lost (wd s) = true -> lost (wd s') = true.
+Proof. exact lost_sticky. Qed.
+Print Assumptions C20_lost_is_sticky.
+
+Theorem C20_lost_never_ok : forall cnt ch f w0 r s,
+  aux_clear w0 = true -> invb w0 = true ->
+  run_prog pipeline cnt ch f w0 = (r, s) ->
+  lost (wd s) = true -> st (wd s) <> SOk.
+Proof. exact lost_never_ok. Qed.
+Print Assumptions C20_lost_never_ok.
+
+(* ---- the worker (whole body of run_tagging_tasks), started on its fresh temp path *)
+
+(* a worker that returns a path has written a complete, sorted, indexed temp BAM, whatever failed inside it
+   with whatever exception class other than TimeoutError *)
+Theorem C20_worker_path_complete : forall cnt ch f s,
+  no_timeout f ->
+  run_prog worker_full cnt ch f w_spawn0 = (RReturn VPath, s) ->
+  ex (wd s) = true /\ co (wd s) = true /\ so (wd s) = true /\ ix (wd s) = true.
+Proof. exact worker_path_complete. Qed.
+Print Assumptions C20_worker_path_complete.
+
+(* -max_time_per_segment: with TimeoutError admitted, the returned temp BAM is sorted and indexed and every
+   segment is either fully written or reported in timeout_tasks (a half-written segment is never returned
+   silently) *)
+Theorem C20_worker_path_timeouts : forall cnt ch f s,
+  run_prog worker_full cnt ch f w_spawn0 = (RReturn VPath, s) ->
+  ex (wd s) = true /\ so (wd s) = true /\ ix (wd s) = true /\ lost (wd s) = false /\ (co (wd s) = true \/ rep (wd s) = true).
+Proof. exact worker_path_timeouts. Qed.
+Print Assumptions C20_worker_path_timeouts.
+
+(* a worker that returns None (and removes its temp BAM) throws away no unit of a task it does not report:
+   the test on total_molecules is only false when no finished task wrote a molecule *)
+Theorem C20_worker_none_drops_nothing : forall cnt ch f s,
+  run_prog worker_full cnt ch f w_spawn0 = (RReturn VNone, s) ->
+  lost (wd s) = false /\ gm (wd s) = false /\ gu (wd s) = false.
+Proof. exact worker_none_drops_nothing. Qed.
+Print Assumptions C20_worker_none_drops_nothing.
+
+Theorem C20_worker_none_wrote_nothing : forall cnt ch f s,
+  no_timeout f ->
+  run_prog worker_full cnt ch f w_spawn0 = (RReturn VNone, s) ->
+  rep (wd s) = false /\ lost (wd s) = false /\ gm (wd s) = false /\ gu (wd s) = false.
+Proof. exact worker_none_wrote_nothing. Qed.
+Print Assumptions C20_worker_none_wrote_nothing.
+
+(* the worker either returns (path | None, meta) or raises: it never falls off its end *)
+Theorem C20_worker_returns_or_raises : forall cnt ch f r s,
+  run_prog worker_full cnt ch f w_spawn0 = (r, s) ->
+  (exists v, r = RReturn v) \/ (exists k, r = RRaised k).
+Proof. exact worker_returns_or_raises. Qed.
+Print Assumptions C20_worker_returns_or_raises.
+
+(* what exactly a timeout leaves: (1) a task that times out after writing part of its molecules, next to a
+   task that completed: the worker returns its temp BAM, which holds the half-written segment; the segment is
+   reported.  (2) the only task of a worker times out after writing: the temp BAM is removed, None is
+   returned, the segment is reported.  ([k] is the next() of the molecule loop, right after a molecule was
+   counted.) *)
+Theorem C20_timeout_half_written_segment_is_reported : exists k s,
+  run_prog worker_full cnt3 (ch_of ch_true_multi) (crash_at KTimeout k) w_spawn0 = (RReturn VPath, s) /\
+  nth k (rev (tr s)) 0 = lbl_task_next /\ nth (k - 1) (rev (tr s)) 0 = lbl_task_inc /\
+  ex (wd s) = true /\ co (wd s) = false /\ rep (wd s) = true /\ gm (wd s) = true /\ lost (wd s) = false.
+Proof. exact timeout_half_written_reported. Qed.
+Print Assumptions C20_timeout_half_written_segment_is_reported.
+
+Theorem C20_timeout_only_segment_removed_and_reported : exists k s,
+  run_prog worker_full cnt_one_task (ch_of ch_true_multi) (crash_at KTimeout k) w_spawn0 = (RReturn VNone, s) /\
+  nth k (rev (tr s)) 0 = lbl_task_next /\ nth (k - 1) (rev (tr s)) 0 = lbl_task_inc /\
+  rep (wd s) = true /\ ex (wd s) = false /\ lost (wd s) = false.
+Proof. exact timeout_only_segment_removed. Qed.
+Print Assumptions C20_timeout_only_segment_removed_and_reported.
+
+(* ---- --cluster without -contig: jobs are submitted and the process ends by exit(); this process never
+   writes the success marker and never returns *)
+Theorem C20_cluster_never_ok : forall cnt ch f w0 r s,
+  (forall n, ch id_ch_cluster n = true) -> (forall n, ch id_ch_cluster_contig_none n = true) ->
+  aux_clear w0 = true -> st w0 <> SOk ->
+  run_prog pipeline cnt ch f w0 = (r, s) ->
+  r <> RNormal /\ st (wd s) <> SOk.
+Proof. exact cluster_never_ok. Qed.
+Print Assumptions C20_cluster_never_ok.
+
+(* non-vacuity: standard runs of both pipelines (3 jobs x 3 tasks x 3 molecules) and of a worker complete;
+   some crash point among the first 200 steps of the single-process run over a previous successful output
+   raises and does not leave the success marker; some OSError crash point inside a worker makes the
+   multiprocess run fail without the marker and with the parent's world marked; a worker whose tasks write
+   nothing returns None; the --cluster run ends by SystemExit with a status that is not the success marker *)
 Example C20_runs :
-  (let '(r, s) := run_prog pipeline (fun _ => 3) (ch_of ch_true_single) no_fault w_fresh in
+  (let '(r, s) := run_prog pipeline cnt3 (ch_of ch_true_single) no_fault w_fresh in
    (r, st (wd s), all_four (wd s))) = (RNormal, SOk, true) /\
-  (let '(r, s) := run_prog pipeline (fun _ => 3) (ch_of ch_true_multi) no_fault w_fresh in
-   (r, st (wd s), all_four (wd s))) = (RNormal, SOk, true) /\
-  existsb (fun k => let '(r, s) := run_prog pipeline (fun _ => 3) (ch_of ch_true_single) (crash_at KOS k) w_prev_ok in
+  (let '(r, s) := run_prog pipeline cnt3 (ch_of ch_true_multi) no_fault w_fresh in
+   (r, st (wd s), all_four (wd s), lost (wd s))) = (RNormal, SOk, true, false) /\
+  existsb (fun k => let '(r, s) := run_prog pipeline cnt3 (ch_of ch_true_single) (crash_at KOS k) w_prev_ok in
                     match r with RRaised KOS => negb (status_eqb (st (wd s)) SOk) | _ => false end) (seq 0 200) = true /\
-  (let '(r, s) := run_prog worker_body (fun _ => 3) (ch_of ch_true_single) no_fault w_fresh in
-   (r, all_four (wd s))) = (RNormal, true) /\
-  worker_timeout_loses_records ch_true_single = true /\
-  ch_of ch_true_single id_ch_tempfiles = false /\
-  invb w_prev_ok = true /\ invb w_fresh = true.
+  existsb (fun k => let '(r, s) := run_prog pipeline cnt3 (ch_of ch_true_multi) (crash_at KOS k) w_fresh in
+                    match r with RRaised KOS => negb (status_eqb (st (wd s)) SOk) && lost (wd s) | _ => false end) (seq 60 200) = true /\
+  (let '(r, s) := run_prog worker_full cnt3 (ch_of ch_true_multi) no_fault w_spawn0 in
+   (r, all_four (wd s))) = (RReturn VPath, true) /\
+  (let '(r, s) := run_prog worker_full (fun id _ => if Nat.eqb id id_loop_tasks then 2 else 0) (ch_of ch_true_multi) no_fault w_spawn0 in
+   (r, ex (wd s), lost (wd s))) = (RReturn VNone, false, false) /\
+  (let '(r, s) := run_prog pipeline cnt3 (ch_of (id_ch_cluster :: id_ch_cluster_contig_none :: ch_true_single)) no_fault w_fresh in
+   (r, st (wd s))) = (RRaised KBase, SOther) /\
+  ch_of ch_true_single id_ch_tempfiles 0 = false /\
+  invb w_prev_ok = true /\ invb w_fresh = true /\ aux_clear w_prev_ok = true /\ aux_clear w_fresh = true /\ aux_clear w_spawn0 = true.
 Proof. vm_compute. repeat split. Qed.
 Print Assumptions C20_runs.
+
+Example C20_no_timeout_inhabited : no_timeout (crash_at KOS 7) /\ no_timeout no_fault.
+Proof. split; [apply crash_at_no_timeout; discriminate | intros i; split; discriminate]. Qed.
+Print Assumptions C20_no_timeout_inhabited.
